@@ -27,6 +27,7 @@ def run(chk):
     from . import misc_contracts
     misc_contracts.models_transitions(chk, "C07")
     X.resubmitter_total(chk, "C07")
+    X.item_in_child_context(chk, "C07")     # a branch resumed by the timer inside the invocation runs on a fresh context and is not stopped as an orphan of itself: it reaches its outcome
     wrapper_contracts.wrapper_obligations(chk, "C07", want=("C07",))
     wrapper_contracts.control_signals_not_exceptions(chk, "C07")
     # safety causes of the liveness clauses (the clauses themselves stay undecided):
